@@ -88,6 +88,16 @@ def _try_to_reorder(
             *args,
             **kwargs
             ) -> _Ret:
+        # the call is repeated after reordering, so
+        # an argument that is an iterator is stored
+        def stored(arg):
+            if isinstance(arg, _abc.Iterator):
+                return list(arg)
+            return arg
+        args = tuple(map(stored, args))
+        kwargs = {
+            k: stored(v)
+            for k, v in kwargs.items()}
         with _ReorderingContext(bdd):
             return func(
                 bdd,
